@@ -5,11 +5,15 @@ use crate::core::{CaseResult, Env, Fail, Report};
 use serde_json::Value;
 use std::path::Path;
 
+pub mod c02;
+pub mod c07;
 pub mod c08;
 pub mod c14;
 pub mod c15;
 pub mod c16;
+pub mod c17;
 pub mod c19;
+pub mod c20;
 
 pub struct PropDef {
     pub id: &'static str,
@@ -31,11 +35,15 @@ impl PropDef {
 
 pub fn registry() -> Vec<PropDef> {
     vec![
+        PropDef { id: "C02", level: "exploration", run: c02::run, replay: c02::replay, replay_isolated: None },
+        PropDef { id: "C07", level: "exploration", run: c07::run, replay: c07::replay, replay_isolated: None },
         PropDef { id: "C08", level: "exploration", run: c08::run, replay: c08::replay, replay_isolated: None },
         PropDef { id: "C14", level: "exploration", run: c14::run, replay: c14::replay, replay_isolated: None },
         PropDef { id: "C15", level: "exploration", run: c15::run, replay: c15::replay, replay_isolated: Some(c15::replay_isolated) },
         PropDef { id: "C16", level: "exploration", run: c16::run, replay: c16::replay, replay_isolated: None },
+        PropDef { id: "C17", level: "exploration", run: c17::run, replay: c17::replay, replay_isolated: None },
         PropDef { id: "C19", level: "exploration", run: c19::run, replay: c19::replay, replay_isolated: None },
+        PropDef { id: "C20", level: "exploration", run: c20::run, replay: c20::replay, replay_isolated: None },
     ]
 }
 
